@@ -52,7 +52,7 @@ class DbDotDot:
 
 
 TARGETS = {
-    "codebasin.finder:ParserState._get_realpath": SysTarget("aliases", ("links", "aliases", "multi"), quick_n=150, thorough_n=3000),
+    "codebasin.finder:ParserState._get_realpath": SysTarget("aliases", ("links", "aliases", "multi", "forced"), quick_n=200, thorough_n=3000),
     "codebasin.finder:ParserState.get_setmap": C06.Reports("reports", ("links", "aliases", "exclude", "outside"), quick_n=150, thorough_n=2000),
     "codebasin.report:FileTree.insert": C06.TreeReport("tree", ("links", "aliases", "exclude", "multi"), quick_n=150, thorough_n=2000),
     "codebasin.coverage.__main__:_compute": C06.Coverage("coverage", ("links",), quick_n=6, thorough_n=100),
